@@ -117,7 +117,8 @@ def gen_cases(tier, seed):
     n2 = n3 = 0
     for j in range(8 if not thorough else 60):
         dim = 3 if j % 4 == 3 else 2
-        kind = str(rng.choice(["clayton", "independent", "clayton", "dependent"]))      # (random: a modulo rule ties the kind to the dimension cycle)
+        # (own cycles, coprime with the constructor cycles: in dimension 3 every case has mass off the axes)
+        kind = ["clayton", "dependent"][(j // 4) % 2] if dim == 3 else ["clayton", "independent", "clayton", "dependent", "clayton"][j % 5]
         cm = W.gen_copula_model_spec(rng, dim=dim, kind=kind)
         W.limit_variation(rng, cm, allow_infinite=(dim == 2 and j % 4 == 2))
         for ms in cm["margins"]:
